@@ -33,7 +33,7 @@ SCHEMA.update({
     "argparse.Namespace": {"src": "pathlib.Path", "out": "pathlib.Path", "testrun": "bool", "naming_convert": "bool",
                            "verbose": "bool", "docstyle": "DocstringStyle", "type_source_preference": "TypeSourcePreference",
                            "show_type_source_warning": "TypeSourceWarning"},
-    "pathlib.PurePath": {"stem": "str", "name": "str", "parts": "Sequence[str]"},
+    "pathlib.PurePath": {"stem": "str", "name": "str", "parts": "Sequence[str]", "parent": "pathlib.Path"},
     "_griffe.expressions.Expr": {"canonical_path": "str", "canonical_name": "str"},
     "_griffe.expressions.ExprSubscript": {"slice": "griffe.Expr | str", "left": "griffe.Expr | str"},
     "_griffe.expressions.ExprTuple": {"elements": "list[griffe.Expr | str]"},
@@ -45,6 +45,7 @@ SCHEMA.update({
 # assumed result shapes of external functions (otherwise their results are unconstrained values)
 EXTERNAL_RETURNS = {
     "pathlib.Path.resolve": "pathlib.Path",
+    "pathlib.PurePath.joinpath": "pathlib.Path",
     "pathlib.Path.open": "io.TextIOWrapper",
     "pathlib.Path.exists": "bool",
     "griffe.docstrings.utils.parse_annotation": "griffe.Expr | str",
